@@ -255,7 +255,7 @@ def gen_auction_run(rng, b, tag):
     for _ in range(rng.choice([8, 30, 70])):
         if rng.random() < p_legal:
             legal = [x for x in Bid if bp.available_bid[x.idx] == 1] if not bp.has_done() else list(Bid)
-            c = Bid.Pass if rng.random() < p_pass else rng.choice(legal)
+            c = Bid.Pass if (rng.random() < p_pass or not legal) else rng.choice(legal)
         else:
             c = rng.choice(list(Bid))
         b.methr(reg, 'BiddingPhase', 'take_bid', bp, BiddingPhase.take_bid, c)
@@ -302,10 +302,14 @@ def area_play(ctx, b):
         bare = b.newr(rb, PlayingPhase, con)
         dummy_set = False
         p_good = rng.choice([0.8, 0.95])
-        while not pp.has_done():
+        turns = 0
+        while not pp.has_done() and turns < 400:
+            turns += 1
             pl = pp.active_player
             if rng.random() < p_good:
                 src = pp.current_available_cards_in_hand(pl) if rng.random() < 0.9 else pp.hands[pl]
+                if not src:
+                    break                      # (a changed implementation may leave the seat on turn without cards)
                 c = rng.choice(sorted(src, key=int))
                 who = pl
             else:
@@ -361,7 +365,13 @@ def validate(ctx, areas):
         if area in UNSHARDED and ctx.shard != 0:
             continue
         b = Batch()
-        AREAS[area](ctx, b)
+        try:
+            AREAS[area](ctx, b)
+        except Exception as e:  # noqa: the real code under a changed implementation may do anything while the ops are generated
+            import traceback
+            fails.append({'key': f'translated:{area}', 'kind': 'broken-correspondence',
+                          'diff': {'what': 'the real code raised while the inputs of the translation validation were generated',
+                                   'exception': repr(e), 'where': traceback.format_exc()[-600:]}})
         bad = b.run(driver)
         ctx.count('translated_ops', len(b.ops))
         ctx.count('_evals', len(b.ops))
